@@ -180,6 +180,13 @@ def generate(st):
 
     def query(target):
         c = current[target]
+        if g.random() < 0.06:
+            # near the ends of the calendar's range the n-th business day may lie outside it: the library may refuse
+            # (raise), it must not answer with another date
+            t0_, t1_ = _d(c['t0']), _d(c['t1'])
+            near = (t0_ + datetime.timedelta(days=g.randrange(0, 45))) if g.random() < 0.5 else (t1_ - datetime.timedelta(days=g.randrange(0, 45)))
+            return {'op': 'q', 'on': target, 'kind': 'edge', 't': _iso(near), 'n': g.choice([-40, -21, -10, -5, -2, 2, 5, 10, 21, 40]),
+                    'adj': g.choice([None, 'f', 'p', 'm']), 'via': g.choice(['add', 'dt_bump'])}
         kind = g.choice(cfg['queries'])
         ds = _interesting_dates(c, g, 2)
         q = {'op': 'q', 'on': target, 'kind': kind, 't': _iso(ds[0])}
@@ -322,6 +329,23 @@ def execute(trace, ctx=None):
                 if cal is None:
                     continue
             t = _d(op['t'])
+            if op['kind'] == 'edge':
+                if not (ref.t0 <= t <= ref.t1) or not ref.is_bday(t) or ref.long_run(t):
+                    continue
+                n, adj = op['n'], op.get('adj')
+                exp = ref.add(t, n, adj)
+                try:
+                    got = cal.add(t, n, adj) if op.get('via') != 'dt_bump' else cal.dt_bump(t, '%db' % n, adj)
+                except Exception:
+                    res.fault('query_beyond_range_refused')
+                    if ref.t0 + 10 * DAY <= exp <= ref.t1 - 10 * DAY:
+                        raise Violation('unexpected-exception', '%s.add(%s, %d) raised although the answer %s lies inside the range' % (target, op['t'], n, exp), k)
+                    continue
+                if got != exp:
+                    raise Violation('add-table', '%s.add(%s, %d, adj=%s) near the end of the range = %s, counting day by day gives %s' % (target, op['t'], n, adj or ref.adj, got, exp), k)
+                res.probe('query-near-range-edge')
+                warmed[target] = True
+                continue
             if not ref.inside(t) or ref.long_run(t):
                 continue
             q = op['kind']
@@ -499,7 +523,7 @@ def signature(trace, violation):
 
 
 PROBES = ['query-after-reregistration', 'reregistration-over-warm-table', 'holiday-run-across-month-end', 'modified-following-falls-back',
-          'single-step-before-populate']
+          'single-step-before-populate', 'query-near-range-edge']
 TIERS = {'quick': {'runs': 6000, 'wallcap': 50}, 'thorough': {'runs': 250000, 'wallcap': 800}}
 COMPONENTS = {
     'real': ['pyg_base._drange Calendar (is_bday, is_holiday, adjust, add, bdays, drange, dt_bump, clock, _populate)', 'pyg_base._drange.calendar() and the calendars registry',
